@@ -152,7 +152,7 @@ def rotate_rho(nn_state, basis, space, unitaries=None, rho=None):
     us = [unitaries[b] for b in basis]
 
     rho_r = _kron_mult(us, rho)
-    rho_r = _kron_mult(us, cplx.conjugate(rho_r))
+    rho_r = cplx.conjugate(_kron_mult(us, cplx.conjugate(rho_r)))
 
     return rho_r
 
